@@ -980,12 +980,63 @@ def _args_render(elems):
     return ', '.join(parts)
 
 
+MHDR = 'From Coq Require Import List Bool Arith.\nFrom PF Require Import models.ArgMarkers.\nImport ListNotations.'
+_CATS = ['Pos', 'Arg', 'Var', 'Kwo', 'Kw']
+
+
+def _param_tokens(src, lam, names):
+    """the parameter list of the one def / lambda of src as model tokens: pieces between top-level commas"""
+    import io
+    import tokenize as _tk
+    toks_ = [t for t in _tk.generate_tokens(io.StringIO(src).readline) if t.type not in (_tk.NL, _tk.NEWLINE, _tk.COMMENT, _tk.INDENT, _tk.DEDENT, _tk.ENDMARKER)]
+    if lam:
+        i0 = next(i for i, t in enumerate(toks_) if t.string == 'lambda') + 1
+        depth, i1 = 0, i0
+        while not (toks_[i1].string == ':' and depth == 0):
+            depth += toks_[i1].string in '([{'
+            depth -= toks_[i1].string in ')]}'
+            i1 += 1
+    else:
+        i0 = next(i for i, t in enumerate(toks_) if t.string == '(') + 1
+        depth, i1 = 0, i0
+        while not (toks_[i1].string == ')' and depth == 0):
+            depth += toks_[i1].string in '([{'
+            depth -= toks_[i1].string in ')]}'
+            i1 += 1
+    pieces, cur, depth = [], [], 0
+    for t in toks_[i0:i1]:
+        if t.string == ',' and depth == 0:
+            pieces.append(cur)
+            cur = []
+            continue
+        depth += t.string in '([{'
+        depth -= t.string in ')]}'
+        cur.append(t.string)
+    if cur:
+        pieces.append(cur)
+    out = []
+    nm = lambda x: names.setdefault(x, len(names))
+    for pc in pieces:
+        if pc == ['/']:
+            out.append('TSlash')
+        elif pc == ['*']:
+            out.append('TStar')
+        elif pc[0] == '**':
+            out.append(f'TKw {nm(pc[1])}')
+        elif pc[0] == '*':
+            out.append(f'TVar {nm(pc[1])}')
+        else:
+            out.append(f'TId {nm(pc[0])}')
+    return out
+
+
 def stage_arguments_sweep(ctx: Ctx):
     """deterministic: arguments._all as a Python list over arguments with the `/` and `*` markers in every place: every (start, stop) x new arguments of every category (each element
     keeps the category it has where it comes from): when those elements in that order form valid arguments the put is carried out and gives exactly them (markers re-derived),
     otherwise it is refused without a trace; def and lambda; put_slice / view slice assignment"""
     import fst
     canon = lambda a: _canon_full(a, args_flat=False)        # the category of every argument is part of the expected structure
+    terms, meta = [], []
     for lam in (False, True):
         for old in ARGS_OLDS:
             olds = _arg_elems(old, lam)
@@ -1061,10 +1112,26 @@ def stage_arguments_sweep(ctx: Ctx):
                                 if names != [e[1] for e in exp]:
                                     ctx.violation('arguments-sweep|structure|unorderable', 'the arguments after the put are not old[:start] + new + old[stop:]', {**desc, 'result_src': m.src})
                                 continue
+                            if ep == 'put_slice' and not (len(got_src) == 2 and got_src[0] == 'SyntaxError'):
+                                # the markers in the text written == the model's render of the expected elements; the model's reading of them == the elements
+                                try:
+                                    import unicodedata as _ud
+                                    names = {}
+                                    real = _param_tokens(m.src, lam, names)
+                                    norm = {_ud.normalize('NFKC', k_): v_ for k_, v_ in names.items()}
+                                    els = '[' + '; '.join(f'({_CATS[e_[0]]}, {norm.get(e_[1], 999)})' for e_ in exp) + ']'
+                                    rt = '[' + '; '.join(real) + ']'
+                                    terms.append(f'toks_eqb (render 1 {els}) {rt} && match parse {rt} with Some l => elems_eqb l {els} | None => false end && ok 0 {els}')
+                                    meta.append({**desc, 'result_src': m.src, 'real_tokens': real, 'expected_elements': els})
+                                except Exception as e:
+                                    ctx.broken.append({'kind': 'harness', 'name': 'arguments_sweep tokens', 'detail': repr(e)[:200]})
                             want = canon(ast.parse(f'v = lambda {etext}: 0\n' if lam else f'def fn({etext}): pass\n'))
                             if canon(m.a) != want or got_src != want:
                                 ctx.violation(f'arguments-sweep|structure|{"lambda" if lam else "def"}', 'the arguments after the put are not old[:start] + new + old[stop:] (each element in its own category)',
                                               {**desc, 'result_src': m.src, 'live_equals_expected': canon(m.a) == want})
+    failed = coq_eval_bools('C03_argmarkers', MHDR, terms, shard=400)
+    ctx.correspondence('models/ArgMarkers.v render == the markers in the parameter list real put_slice writes to arguments._all; parse (the model of Python\'s reading) of those tokens == the expected elements; ok holds of them',
+                       len(terms), [meta[i] for i in failed])
 
 
 def run(ctx: Ctx):
